@@ -378,3 +378,83 @@ generic(
     models_quick=["MC_DirHashSmall"], models_thorough=["MC_DirHash"],
     extra_assumptions=["an empty file and an empty directory hash alike by definition (both are the empty input); the signatures identify them"],
 )
+
+
+INV_C17 = ["Inv_C17_Renamed", "Inv_C17_Altered", "Inv_C03_NoFalseAlarm", "Inv_C03_Removed", "Inv_C03_Added", "Inv_NoInternal"]
+generic(
+    "C17", "model_checking",
+    quick=[dict(scope="chain", mode="simulate", num=80, depth=11, limit=700, mc_maxgens=3, invariants=INV_C17),
+           dict(scope="ren", mode="simulate", num=60, depth=10, limit=500, mc_maxgens=1, invariants=INV_C17)],
+    thorough=[dict(scope="chain", mode="simulate", num=1500, depth=13, mc_maxgens=3, invariants=INV_C17),
+              dict(scope="ren", mode="simulate", num=1500, depth=12, mc_maxgens=2, invariants=INV_C17)],
+    pclauses=["P_C17_Renamed", "P_C17_NoInternal", "P_C17_Altered", "P_C03_NoFalseAlarm", "P_C03_Removed", "P_C03_Added"],
+    antecedent=lambda ln, v: bool(v.get("A_moves")) or bool(v.get("A_renames")),
+    antecedent_text="a create -dr that faces at least one moved file, or any create / verify / diff on a history that already records renames",
+    extra_assumptions=["contents pairwise distinct (the scopes' environment never creates duplicate contents); folder renames are not generated"],
+)
+
+
+@register("C13")
+def c13(tier, seed):
+    """location / spelling / listing-order independence: grouped executions judged by MhlEnv.tla; the mechanism model
+    itself has no location or order argument, which is what the model runs establish for the core scopes."""
+    import random
+    from . import envcheck as E
+    from . import validate
+
+    out = Outcome("C13", tier, seed, "model_checking")
+    plans = [("nest", 7, 120), ("ign", 6, 100), ("tree", 6, 80)] if tier == "quick" else [("nest", 9, 900), ("ign", 8, 700), ("tree", 8, 500), ("ren", 8, 200)]
+    known = [k for k in load_known() if k["property"] == "C13" and k.get("status") == "open"]
+    nontrivial = set()
+    total = 0
+    samples = []
+    counts = collections.Counter()
+    for scope, depth, limit in plans:
+        if scope == "nest":
+            r = C.model_check("nest", invariants=["Inv_C08_Refs", "Inv_C02_RecordSet", "Inv_C12_Excluded"], maxgens=2 if tier == "quick" else 3)
+            out.add_model(r, "MhlHistoryMC/nest")
+        behs, er = C.export(scope, mode="simulate", num=30 if tier == "quick" else 200, depth=depth, seed=seed, maxops=depth, maxgens=6)
+        random.Random(seed * 31 + 7).shuffle(behs)
+        behs = behs[:limit]
+        specs = E.group_specs(scope, behs, seed=seed)
+        glines, errs, lines = E.run_groups(specs)
+        for e in errs[:3]:
+            out.machinery.append("harness error: %s" % e.get("harness_error", "")[-1200:])
+        verdicts, diags = validate.validate(glines, [], trace_module="MhlEnv", tag="C13-" + scope)
+        for d in diags[:3]:
+            out.machinery.append("trace validation stopped early: %s" % d["tail"][-1200:])
+        gspec = {}
+        for s in specs:
+            gspec.setdefault(s["group"], s)
+        out.coverage["traces_validated_against_impl"] += len(specs)
+        for g in glines:
+            v = verdicts.get((g["tid"], g["i"]))
+            if not v:
+                continue
+            total += 1
+            if v.get("A_wrote"):
+                nontrivial.add(C.beh_key(gspec[g["tid"]]["ops"]))
+            for c in ("P_C13_SameBytes", "P_C13_SameExit", "P_C13_SameOut", "P_C13_Copy"):
+                counts[c] += 1
+                if v.get(c) is False:
+                    spec = dict(gspec[g["tid"]])
+                    spec["variants"] = E.VARIANTS
+                    out.violation(c, "step %d op=%s observations=%s" % (g["i"], json.dumps(g["op"], sort_keys=True),
+                                  json.dumps([(x["env"]["location"], x["exit"], len(x["hbytes"]), [c_["exit"] for c_ in x["copies"]]) for x in g["variants"]])), spec, g["i"])
+        if len(samples) < 3 and glines:
+            g = glines[0]
+            samples.append({"group": g["tid"], "ops": gspec[g["tid"]]["ops"], "environments": E.VARIANTS, "exits_step0": [x["exit"] for x in g["variants"]]})
+    out.coverage["evaluations"] = total
+    out.coverage["distinct_nontrivial"] = len(nontrivial)
+    out.coverage["samples"] = samples
+    out.coverage["clause_evaluations"] = dict(counts)
+    out.coverage["rule"] = (
+        "each behaviour exported by TLC (scopes nest / ign / tree) is executed under 6 environments (plain, deep, below a folder named "
+        "'ascmhl', below '.DS_Store', below a folder matching a user pattern, below a folder named like an ignored file; absolute / "
+        "trailing-slash / relative / '.' / './x' spelling of the root; 5 seeded permutations of os.listdir / os.scandir) with identical "
+        "names, contents, mtimes, clock and host name; one evaluation = one step of one behaviour judged over its 6 observations by "
+        "MhlEnv.tla (byte-identical ascmhl folders, equal exit code and reported paths; after every create that exits 0 the tree is "
+        "copied to three other locations and verified there). Non-trivial = the step wrote a generation."
+    )
+    out.assumptions = COMMON_ASSUMPTIONS + ["mtimes of all files and directories are pinned before each command (directory mtimes are written into manifests)"]
+    return out
